@@ -148,6 +148,7 @@ def run(ck):
     ck.floor('C16.R1', 'functions analysed', len(fns), 400)
     r2_guards(ck, w)
     r3_checked(ck, w)
+    r5_unchecked(ck, w)
 
 
 def switch_mentions(b, i, blk, want_callee=None, want_field=None, want_const=None):
@@ -235,6 +236,11 @@ def r2_guards(ck, w):
     ok2, _ = mc.must_call(mv, lambda c, t: c == 'midnight_proofs::plonk::VerifyingKey::read_from_cs')
     ck.record('C16.R2', 'MidnightVK::read:checked-parts', ok1 and ok2, 'decodes via ZkStdLibArch::read and VerifyingKey::read_from_cs',
               'MidnightVK::read bypasses the checked decoders of its parts', reach.loc(mv))
+
+
+def r5_unchecked(ck, w):
+    from . import c11
+    c11.r5_unchecked(ck, w, rule='C16.R5', crates=None, floor=30)
 
 
 def r3_checked(ck, w):
